@@ -3,4 +3,4 @@ From Coq Require Import Extraction ExtrOcamlBasic.
 From Tele Require Import Lib.Bytes Lib.Str Lib.Assoc Lib.Calendar Model.Config Model.ApprovalSpec Model.Report Model.Approval.
 Extraction Language OCaml.
 Extraction "approval_model.ml" new_config server_validate server_status viewer_summary viewer_active_meta
-  viewer_active server_check viewer_check viewer_report_summary viewer_report_check viewer_summary_check config_at viewer_charts viewer_chart_check filter_upload aggregate parse_date approved_buildb.
+  viewer_active server_check viewer_check viewer_report_summary viewer_report_check viewer_summary_check config_at viewer_charts viewer_chart_check stored_check server_store filter_upload aggregate parse_date approved_buildb.
